@@ -4,7 +4,7 @@
 From Coq Require Import NArith ZArith List String Bool.
 From V Require Import Base.UString Base.Json Model.SchemaTypes Model.PyBase Model.Schema Model.Serialize Model.SchemaReparse.
 From V Require Import Gen.Tables Proofs.C04Strict Proofs.C04Witness.
-From V Require Import Proofs.C01KindsAll Proofs.C01Object Proofs.C01Roundtrip Proofs.C01LibInstance Proofs.C04Modes Proofs.C04Flag Spec.CustomFree Proofs.C04CustomFree Proofs.C01Parse Proofs.C04Parse Proofs.C01Examples.
+From V Require Import Proofs.C01KindsAll Proofs.C01Object Proofs.C01Roundtrip Proofs.C01LibInstance Proofs.C04Modes Proofs.C04Flag Spec.CustomFree Proofs.C04CustomFree Proofs.C01Parse Proofs.C04Parse Proofs.C04Sim Proofs.C01Examples.
 Import ListNotations.
 
 (* With customisation disallowed no property cleaner -- at any nesting site: lists, hash
@@ -156,6 +156,36 @@ Theorem strict_custom_free_parse_partial :
     cf_obj w f ci (PObject ci S dfl hc) = true.
 Proof. exact C04Parse.strict_custom_free_parse. Qed.
 Print Assumptions strict_custom_free_parse_partial.
+
+(* "always detected", with the error named (the refused side of flag_iff_strict_reparse made definite): when the
+   allow_custom=True run returns a FLAGGED object, the allow_custom=False run on the object's own encoding does not
+   merely "not return Ok" -- it returns the error ExtraPropertiesError (EExtra) or InvalidValueError (EInvalidValue);
+   never Unmodelled, never out of fuel.  Proofs/C04Sim.v: the strict run follows the lenient one step by step up to
+   the first place where custom content is admitted, and raises there.  Constructor level, then stix2.parse level. *)
+Theorem flagged_strict_reparse_refused_partial :
+  forall vr ev w pattern_ok selectors_ok, vr_year_pad vr = true -> vr_ref_flip_unreg vr = true ->
+  forall ids, closed_oki vr w ids = true ->
+  forall fuel kid interop kw vrefs o,
+    mem_ustr kid ids = true -> plain_dict kw = true -> id_given w kid kw = true ->
+    run vr ev w pattern_ok selectors_ok fuel (RConstruct kid true interop kw vrefs) = Ok o -> pval_has_custom o = true ->
+    run vr ev w pattern_ok selectors_ok fuel (RConstruct kid false interop (omem o) vrefs) = Err EExtra \/
+    run vr ev w pattern_ok selectors_ok fuel (RConstruct kid false interop (omem o) vrefs) = Err EInvalidValue.
+Proof. exact C04Sim.flagged_strict_reparse_refused_construct. Qed.
+Print Assumptions flagged_strict_reparse_refused_partial.
+
+Theorem flagged_strict_reparse_refused_parse_partial :
+  forall vr ev w pattern_ok selectors_ok, vr_year_pad vr = true -> vr_ref_flip_unreg vr = true ->
+  forall ids, closed_oki vr w ids = true -> registry_ok w = true ->
+  forall pids, forallb (fun k => mem_ustr k ids) pids = true ->
+    forallb (fun k => match find_class (wclasses w) k with Some c => parse_class_ok w c | None => false end) pids = true ->
+  forall fuel interop d ci S dfl,
+    plain_dict d = true -> mem_ustr ci pids = true ->
+    (amem id_key d = true \/ forall t, alookup type_key d = Some (JStr t) -> amem t (robservables (wreg21 w)) = false) ->
+    run vr ev w pattern_ok selectors_ok fuel (RParse true interop None d) = Ok (PObject ci S dfl true) ->
+    run vr ev w pattern_ok selectors_ok fuel (RParse false interop None (omem (PObject ci S dfl true))) = Err EExtra \/
+    run vr ev w pattern_ok selectors_ok fuel (RParse false interop None (omem (PObject ci S dfl true))) = Err EInvalidValue.
+Proof. exact C04Sim.flagged_strict_reparse_refused_parse. Qed.
+Print Assumptions flagged_strict_reparse_refused_parse_partial.
 
 (* the hypotheses are met by the repaired variant on the generated tables (class list recomputed each run) *)
 Theorem flag_theorem_applies_to_lib :
